@@ -71,17 +71,17 @@ pub fn crashed() -> bool {
 }
 
 /// One crash point.  Err = the process is dead from here on.
-fn step() -> std::io::Result<()> {
+fn step() -> io::Result<()> {
     unsafe {
         if FS.crashed {
             FS.crash_now = false;
-            return Err(std::io::Error::from(std::io::ErrorKind::Other));
+            return Err(io::Error(1));
         }
         FS.ops += 1;
         if FS.ops == FS.crash_at {
             FS.crashed = true;
             FS.crash_now = true;
-            return Err(std::io::Error::from(std::io::ErrorKind::Other));
+            return Err(io::Error(1));
         }
     }
     Ok(())
@@ -130,18 +130,48 @@ pub fn reboot(power_loss: bool, keep: [bool; NNAMES], rot: [bool; NINODES]) {
     }
 }
 
+
+/// Minimal stand-in for the parts of std::io the persistence module uses.  std::io::Error is a tagged pointer
+/// whose drop glue and `dyn Error` methods recurse through vtables; CBMC unwinds that recursion to the bound
+/// at every `?` (measured: no verdict in 10 min for one persist call), so the error type is part of the model.
+pub mod io {
+    #[derive(Debug, Clone, Copy, PartialEq)]
+    pub struct Error(pub u8); // 1 = crashed process, 2 = not found, 3 = invalid data
+    impl std::fmt::Display for Error {
+        fn fmt(&self, _f: &mut std::fmt::Formatter<'_>) -> std::fmt::Result {
+            Ok(())
+        }
+    }
+    impl std::error::Error for Error {}
+    pub type Result<T> = core::result::Result<T, Error>;
+    pub trait Write {
+        fn write_all(&mut self, buf: &[u8]) -> Result<()>;
+        fn flush(&mut self) -> Result<()> {
+            Ok(())
+        }
+    }
+    pub struct Cursor(pub Vec<u8>);
+    impl Cursor {
+        pub fn new(v: Vec<u8>) -> Self {
+            Cursor(v)
+        }
+        pub fn first_byte(&self) -> Option<u8> {
+            if self.0.is_empty() { None } else { Some(self.0[0]) }
+        }
+    }
+}
+
 pub mod path {
     #[derive(Clone, Copy, Debug, PartialEq)]
     pub struct PathBuf {
         pub name: usize,
     }
-    pub struct Path;
-    impl Path {
+    /// `&Path` and `&PathBuf` are the same thing here (std derefs one to the other).
+    pub type Path = PathBuf;
+    impl PathBuf {
         pub fn new<S: AsRef<str> + ?Sized>(_s: &S) -> PathBuf {
             PathBuf { name: 0 }
         }
-    }
-    impl PathBuf {
         pub fn join<S: AsRef<str>>(&self, s: S) -> PathBuf {
             let s = s.as_ref();
             if self.name == 0 {
@@ -171,8 +201,8 @@ pub mod path {
 
 pub mod fs {
     use super::path::PathBuf;
+    use super::io;
     use super::{new_inode, step, FS};
-    use std::io;
 
     pub struct File {
         inode: Option<u8>, // None: a directory handle
@@ -194,7 +224,7 @@ pub mod fs {
         let n = p.as_ref().name;
         unsafe {
             if FS.vol[n].is_none() {
-                return Err(io::Error::from(io::ErrorKind::NotFound));
+                return Err(io::Error(2));
             }
             FS.vol[n] = None;
         }
@@ -205,7 +235,7 @@ pub mod fs {
         let (a, b) = (a.as_ref().name, b.as_ref().name);
         unsafe {
             if FS.vol[a].is_none() {
-                return Err(io::Error::from(io::ErrorKind::NotFound));
+                return Err(io::Error(2));
             }
             FS.vol[b] = FS.vol[a];
             FS.vol[a] = None;
@@ -218,7 +248,7 @@ pub mod fs {
         unsafe {
             match FS.vol[n] {
                 Some(i) => Ok(vec![FS.content[i as usize]]),
-                None => Err(io::Error::from(io::ErrorKind::NotFound)),
+                None => Err(io::Error(2)),
             }
         }
     }
@@ -248,7 +278,7 @@ pub mod fs {
             unsafe {
                 match FS.vol[n] {
                     Some(i) => Ok(File { inode: Some(i), dir: n <= 1 }),
-                    None => Err(io::Error::from(io::ErrorKind::NotFound)),
+                    None => Err(io::Error(2)),
                 }
             }
         }
@@ -268,10 +298,6 @@ pub mod fs {
         }
     }
     impl io::Write for File {
-        fn write(&mut self, buf: &[u8]) -> io::Result<usize> {
-            self.write_all(buf)?;
-            Ok(buf.len())
-        }
         fn write_all(&mut self, buf: &[u8]) -> io::Result<()> {
             let r = step();
             unsafe {
